@@ -186,6 +186,7 @@ func verifC11Kind(err error) string {
 		{"is not of type 'mark'", "notmark"},
 		{"still references the tag to be deleted", "referenced"},
 		{"still references the tag to be renamed", "referenced"},
+		{"state.json", "savestate"},
 		{"failed to attach converter", "complex"},
 		{"query is too complex", "complex"},
 	} {
@@ -430,6 +431,19 @@ func verifC11RunSeq(t *testing.T, seq verifC11Seq, emit func(verifC11Line)) {
 						UpdateTagOperationSetConverter(*c.Conv)(info)
 					}
 				})
+			case "breakstate":
+				// fault injection (replay only): saveState cannot create its file any more
+				if err := os.Rename(d["state"], path.Join(base, "state.bak")); err != nil {
+					panic(err)
+				}
+				if err := os.WriteFile(strings.TrimSuffix(d["state"], "/"), []byte("x"), 0644); err != nil {
+					panic(err)
+				}
+			case "fixstate":
+				os.Remove(strings.TrimSuffix(d["state"], "/"))
+				if err := os.Rename(path.Join(base, "state.bak"), d["state"]); err != nil {
+					panic(err)
+				}
 			default:
 				panic("bad op " + c.Op)
 			}
